@@ -346,7 +346,8 @@ fn return_expr(p: &mut Parser<'_>) -> CompletedMarker {
     let m = p.start();
     p.bump_any(); // `return` token.
                   // parse possible returned expression
-    if p.at_ts(EXPR_FIRST) {
+                  // A cast expression starts with a type name, which is not in EXPR_FIRST.
+    if p.at_ts(EXPR_FIRST) || p.current().is_classical_type() {
         expr(p);
     }
     m.complete(p, RETURN_EXPR)
